@@ -465,7 +465,21 @@ func (s *sim) guarded(wrong bool, pw []byte, what string, call func() error) (er
 	return err, false
 }
 
-func hardKnown() bool { return os.Getenv("VERIF_REPLAY") != "" || os.Getenv("VERIF_KNOWN_HARD") != "" }
+// hardKnown decides how the known-finding class is reported. In a replay (VERIF_REPLAY) or with
+// VERIF_KNOWN_HARD=1 it is an ordinary violation, so that findings/C46-*/replay.json reproduces. In
+// a check run the driver passes the open known findings in VERIF_KNOWN_KEYS (kernel.KnownKey): listed
+// -> RunResult.Known and the run goes on; not listed (finding closed or removed) -> violation. Without
+// that variable (determinism self-test, manual worker runs) the run goes on as well, so that one
+// known class does not cut those runs short.
+func hardKnown() bool {
+	if os.Getenv("VERIF_REPLAY") != "" || os.Getenv("VERIF_KNOWN_HARD") != "" {
+		return true
+	}
+	if _, set := os.LookupEnv("VERIF_KNOWN_KEYS"); set {
+		return !kernel.KnownKey("C46", keyTrailingNul)
+	}
+	return false
+}
 
 // ---- operations
 
